@@ -3,7 +3,7 @@
 import json, os, sys
 sys.path.insert(0, os.path.dirname(os.path.abspath(__file__)))
 from props import PROPS
-from manifest_text import TEXT, NOT_APPLICABLE
+from manifest_text import TEXT, ALL, _REASONS
 
 V = os.path.dirname(os.path.dirname(os.path.abspath(__file__)))
 checks = []
@@ -36,8 +36,8 @@ m = {
         "kind_free_text": "hand-written Lean 4 model with machine-checked property theorems (lake build + #print axioms audit), tied to /repo on every run by a differential line-protocol stream (Rust harness calling the real code in-process vs. the compiled model driver pmodel) and by decide-theorems over constant tables re-extracted from the source",
     }],
     "checks": checks,
-    "not_applicable": NOT_APPLICABLE,
+    "not_applicable": [{"property_id": p, "reason": _REASONS.get(p, "not yet claimed: its model, theorems and correspondence stream are under construction in this framework (see DESIGN.md section 8 for the plan); it will be claimed once its first theorem and T1 stream exist")} for p in ALL if p not in PROPS],
     "notes": "See DESIGN.md. Fix commits in /repo are listed in known_findings.json (status fixed).",
 }
 json.dump(m, open(os.path.join(V, "MANIFEST.json"), "w"), indent=1)
-print("MANIFEST.json:", len(checks), "checks;", len(NOT_APPLICABLE), "not applicable")
+print("MANIFEST.json:", len(checks), "checks")
